@@ -4,6 +4,7 @@ use std::io::{self, BufRead, Write};
 mod budget;
 mod entry;
 mod erase;
+mod ffi;
 mod heap;
 mod iso;
 mod json;
@@ -29,6 +30,7 @@ fn main() {
         "budget" => budget::line,
         "entry" => entry::line,
         "erase" => erase::line,
+        "ffi" => ffi::line,
         "roles" => entry::roles_line,
         "heap" => heap::line,
         "iso" => iso::line,
